@@ -467,6 +467,8 @@ def initWorkData (a : Arch) (f : FrameIn) (argsSa : Nat) (vals : List (FuncValue
     let saRequired := c.hasStackSrc && f.da && !f.fp
     let gp := c.w 0
     if f.saReg ≠ 255 && gp.isAssigned f.saReg then .error "OverlappedRegs" else
+    -- fix C06-10: the requested SA register must be an allocable GP register (never sp, never a preserved fp)
+    if argsSa ≠ 255 && (argsSa ≥ 32 || !bit gp.archRegs argsSa) then .error "InvalidPhysId" else
     if argsSa ≠ 255 && bit gp.dstRegs argsSa then .error "OverlappedRegs" else
     let saRequired := saRequired || argsSa ≠ 255
     if !saRequired then .ok c else
